@@ -19,17 +19,21 @@ var (
 	two56 = new(big.Int).Lsh(big.NewInt(1), 256)
 )
 
-func bi(v int64) *big.Int            { return big.NewInt(v) }
-func add(a, b *big.Int) *big.Int     { return new(big.Int).Add(a, b) }
-func sub(a, b *big.Int) *big.Int     { return new(big.Int).Sub(a, b) }
-func mulN(a, b *big.Int) *big.Int    { return new(big.Int).Mod(new(big.Int).Mul(a, b), bigN) }
-func modN(a *big.Int) *big.Int       { return new(big.Int).Mod(a, bigN) }
-func invN(a *big.Int) *big.Int       { return new(big.Int).Exp(modN(a), sub(bigN, bi(2)), bigN) }
-func hashInt(s string) *big.Int      { h := sha256.Sum256([]byte(s)); return refsecp.Int(h[:]) }
-func hashBytes(s string) []byte      { h := sha256.Sum256([]byte(s)); return h[:] }
-func b32(v *big.Int) []byte          { return refsecp.B32(v) }
-func cat(parts ...[]byte) []byte     { return bytes.Join(parts, nil) }
-func flip(b []byte, bit int) []byte  { o := append([]byte(nil), b...); o[bit/8] ^= 0x80 >> uint(bit%8); return o }
+func bi(v int64) *big.Int         { return big.NewInt(v) }
+func add(a, b *big.Int) *big.Int  { return new(big.Int).Add(a, b) }
+func sub(a, b *big.Int) *big.Int  { return new(big.Int).Sub(a, b) }
+func mulN(a, b *big.Int) *big.Int { return new(big.Int).Mod(new(big.Int).Mul(a, b), bigN) }
+func modN(a *big.Int) *big.Int    { return new(big.Int).Mod(a, bigN) }
+func invN(a *big.Int) *big.Int    { return new(big.Int).Exp(modN(a), sub(bigN, bi(2)), bigN) }
+func hashInt(s string) *big.Int   { h := sha256.Sum256([]byte(s)); return refsecp.Int(h[:]) }
+func hashBytes(s string) []byte   { h := sha256.Sum256([]byte(s)); return h[:] }
+func b32(v *big.Int) []byte       { return refsecp.B32(v) }
+func cat(parts ...[]byte) []byte  { return bytes.Join(parts, nil) }
+func flip(b []byte, bit int) []byte {
+	o := append([]byte(nil), b...)
+	o[bit/8] ^= 0x80 >> uint(bit%8)
+	return o
+}
 func bytesOf(v *big.Int) []byte { // minimal unsigned big-endian, at least one byte
 	b := v.Bytes()
 	if len(b) == 0 {
@@ -193,16 +197,20 @@ func genEcdsa(thorough bool, emit func(Case)) {
 	// ---- chosen s: with the secret known, any s is reachable by choosing the
 	// message e = s*k - r*d; gives s + n that still fits 32 bytes ----
 	nonces := []*big.Int{bi(1), bi(2), modN(hashInt("verif C03 nonce"))}
-	targets := map[string]*big.Int{"1": bi(1), "2": bi(2), "3": bi(3), "2^64": new(big.Int).Lsh(bi(1), 64), "2^128": new(big.Int).Lsh(bi(1), 128),
-		"(n-1)/2": refsecp.HalfN, "(n+1)/2": add(refsecp.HalfN, bi(1)), "n-2": sub(bigN, bi(2)), "n-1": sub(bigN, bi(1))}
+	type tgt struct {
+		n string
+		v *big.Int
+	}
+	targets := []tgt{{"1", bi(1)}, {"2", bi(2)}, {"3", bi(3)}, {"2^64", new(big.Int).Lsh(bi(1), 64)}, {"2^128", new(big.Int).Lsh(bi(1), 128)},
+		{"(n-1)/2", refsecp.HalfN}, {"(n+1)/2", add(refsecp.HalfN, bi(1))}, {"n-2", sub(bigN, bi(2))}, {"n-1", sub(bigN, bi(1))}}
 	for di, d := range secs {
 		q := refsecp.MulG(d)
 		pub := keyEnc(q, 'c')
 		for ki, k := range nonces {
 			R := refsecp.MulG(k)
 			r := modN(R.X)
-			for _, tn := range sortedKeys(targets) {
-				s := targets[tn]
+			for _, tg := range targets {
+				tn, s := tg.n, tg.v
 				e := modN(sub(mulN(s, k), mulN(r, d)))
 				tag := fmt.Sprintf("key#%d nonce#%d s=%s", di, ki, tn)
 				emit(ecdsaCase("ecdsa/chosen-s", tag+" (valid)", pub, refsig.SerializeDER(r, s), b32(e)))
@@ -220,19 +228,38 @@ func genEcdsa(thorough bool, emit func(Case)) {
 	for _, b := range bases {
 		encs := []byte{'c', 'u'}
 		if thorough {
+			// thorough: every key, messages 0, n+1, 2^256-1 and the hash, all three encodings
 			encs = []byte{'c', 'u', 'h'}
-		} else if !((b.mi == 6 && (b.di == 0 || b.di == 3 || b.di == 4)) || (b.mi == 4 && b.di == 2)) {
-			// quick: keys 1, (n-1)/2, "random" with the hash message; key n-1 with message n+1
-			continue
+			if !(b.mi == 0 || b.mi == 4 || b.mi == 5 || b.mi == 6) {
+				continue
+			}
+		} else {
+			// quick: key 1 compressed, key (n-1)/2 uncompressed, "random" key both (hash message);
+			// key n-1 compressed with message n+1
+			switch {
+			case b.mi == 6 && b.di == 0, b.mi == 4 && b.di == 2:
+				encs = []byte{'c'}
+			case b.mi == 6 && b.di == 3:
+				encs = []byte{'u'}
+			case b.mi == 6 && b.di == 4:
+			default:
+				continue
+			}
 		}
 		svals := []*big.Int{b.s}
 		if thorough {
 			svals = append(svals, hi(b.s))
 		}
 		for _, enc := range encs {
-			for _, s := range svals {
+			for si, s := range svals {
+				if si == 1 && enc != 'c' {
+					continue // the high-S variant with the compressed key only
+				}
 				pub, sig := keyEnc(b.q, enc), refsig.SerializeDER(b.r, s)
 				tag := fmt.Sprintf("key#%d msg#%d enc=%c", b.di, b.mi, enc)
+				if si == 1 {
+					tag += " high-S"
+				}
 				for i := 0; i < len(pub)*8; i++ {
 					emit(ecdsaCase("ecdsa/bitflip-key", fmt.Sprintf("%s key bit %d", tag, i), flip(pub, i), sig, b.msg))
 				}
@@ -282,36 +309,36 @@ func genEcdsa(thorough bool, emit func(Case)) {
 		canon := refsig.SerializeDER(b.r, b.s)
 		body := canon[2:]
 		forms := map[string][]byte{
-			"canonical":                 canon,
-			"seq-len-long-form-81":      cat([]byte{0x30, 0x81, byte(len(body))}, body),
-			"seq-len-long-form-82":      cat([]byte{0x30, 0x82, 0, byte(len(body))}, body),
-			"seq-len-wrong-minus1":      cat([]byte{0x30, byte(len(body) - 1)}, body),
-			"seq-len-wrong-plus1":       cat([]byte{0x30, byte(len(body) + 1)}, body),
-			"seq-len-zero":              cat([]byte{0x30, 0}, body),
-			"r-len-long-form-81":        cat([]byte{0x30, byte(len(body) + 1), 2, 0x81, byte(len(rb))}, rb, []byte{2, byte(len(sb))}, sb),
-			"s-len-long-form-81":        cat([]byte{0x30, byte(len(body) + 1), 2, byte(len(rb))}, rb, []byte{2, 0x81, byte(len(sb))}, sb),
-			"r-len-long-form-83-zeros":  cat([]byte{0x30, byte(len(body) + 3), 2, 0x83, 0, 0, byte(len(rb))}, rb, []byte{2, byte(len(sb))}, sb),
-			"r-padded-00":               derRaw(cat([]byte{0}, rb), sb),
-			"r-padded-0000":             derRaw(cat([]byte{0, 0}, rb), sb),
-			"s-padded-00":               derRaw(rb, cat([]byte{0}, sb)),
-			"s-padded-x8-00":            derRaw(rb, cat(make([]byte, 8), sb)),
-			"r-unpadded-negative":       derRaw(bytesOf(b.r), sb),
-			"s-unpadded-negative":       derRaw(rb, bytesOf(hi(b.s))),
-			"r-zero-length":             derRaw(nil, sb),
-			"s-zero-length":             derRaw(rb, nil),
-			"r-tag-03":                  cat(canon[:2], []byte{3}, canon[3:]),
-			"s-tag-03":                  cat(canon[:4+len(rb)], []byte{3}, canon[5+len(rb):]),
-			"seq-tag-31":                cat([]byte{0x31}, canon[1:]),
-			"trailing-00":               cat(canon, []byte{0}),
-			"trailing-hashtype-01":      cat(canon, []byte{1}),
-			"trailing-3-bytes":          cat(canon, []byte{0xde, 0xad, 0x01}),
-			"trailing-inside-seq":       cat([]byte{0x30, byte(len(body) + 1)}, body, []byte{0}),
-			"s-missing":                 cat([]byte{0x30, byte(2 + len(rb)), 2, byte(len(rb))}, rb),
-			"empty":                     {},
-			"only-30":                   {0x30},
-			"r-len-81-as-count-129":     cat([]byte{0x30, byte(129 + 3 + 4), 2, 0x81}, bytes.Repeat([]byte{0x7f}, 129), []byte{2, 1, 1}),
-			"r-33-bytes-01-prefix":      derRaw(cat([]byte{1}, b32(b.r)), sb),
-			"s-33-bytes-01-prefix":      derRaw(rb, cat([]byte{1}, b32(b.s))),
+			"canonical":                canon,
+			"seq-len-long-form-81":     cat([]byte{0x30, 0x81, byte(len(body))}, body),
+			"seq-len-long-form-82":     cat([]byte{0x30, 0x82, 0, byte(len(body))}, body),
+			"seq-len-wrong-minus1":     cat([]byte{0x30, byte(len(body) - 1)}, body),
+			"seq-len-wrong-plus1":      cat([]byte{0x30, byte(len(body) + 1)}, body),
+			"seq-len-zero":             cat([]byte{0x30, 0}, body),
+			"r-len-long-form-81":       cat([]byte{0x30, byte(len(body) + 1), 2, 0x81, byte(len(rb))}, rb, []byte{2, byte(len(sb))}, sb),
+			"s-len-long-form-81":       cat([]byte{0x30, byte(len(body) + 1), 2, byte(len(rb))}, rb, []byte{2, 0x81, byte(len(sb))}, sb),
+			"r-len-long-form-83-zeros": cat([]byte{0x30, byte(len(body) + 3), 2, 0x83, 0, 0, byte(len(rb))}, rb, []byte{2, byte(len(sb))}, sb),
+			"r-padded-00":              derRaw(cat([]byte{0}, rb), sb),
+			"r-padded-0000":            derRaw(cat([]byte{0, 0}, rb), sb),
+			"s-padded-00":              derRaw(rb, cat([]byte{0}, sb)),
+			"s-padded-x8-00":           derRaw(rb, cat(make([]byte, 8), sb)),
+			"r-unpadded-negative":      derRaw(bytesOf(b.r), sb),
+			"s-unpadded-negative":      derRaw(rb, bytesOf(hi(b.s))),
+			"r-zero-length":            derRaw(nil, sb),
+			"s-zero-length":            derRaw(rb, nil),
+			"r-tag-03":                 cat(canon[:2], []byte{3}, canon[3:]),
+			"s-tag-03":                 cat(canon[:4+len(rb)], []byte{3}, canon[5+len(rb):]),
+			"seq-tag-31":               cat([]byte{0x31}, canon[1:]),
+			"trailing-00":              cat(canon, []byte{0}),
+			"trailing-hashtype-01":     cat(canon, []byte{1}),
+			"trailing-3-bytes":         cat(canon, []byte{0xde, 0xad, 0x01}),
+			"trailing-inside-seq":      cat([]byte{0x30, byte(len(body) + 1)}, body, []byte{0}),
+			"s-missing":                cat([]byte{0x30, byte(2 + len(rb)), 2, byte(len(rb))}, rb),
+			"empty":                    {},
+			"only-30":                  {0x30},
+			"r-len-81-as-count-129":    cat([]byte{0x30, byte(129 + 3 + 4), 2, 0x81}, bytes.Repeat([]byte{0x7f}, 129), []byte{2, 1, 1}),
+			"r-33-bytes-01-prefix":     derRaw(cat([]byte{1}, b32(b.r)), sb),
+			"s-33-bytes-01-prefix":     derRaw(rb, cat([]byte{1}, b32(b.s))),
 		}
 		for _, k := range sortedKeysB(forms) {
 			emit(ecdsaCase("ecdsa/der-forms", fmt.Sprintf("key#%d msg#%d %s", b.di, b.mi, k), pub, forms[k], b.msg))
